@@ -327,7 +327,13 @@ class StdioClient:
                 except Exception as exc:
                     logger.error("Error serializing message in stdin_writer: %s", exc)
                     logger.debug("Failed message type: %s", type(message))
-                    logger.debug("Failed message: %s", repr(message)[:200])
+                    # repr() of an unserialisable message can fail too (e.g. a
+                    # structure nested beyond the recursion limit); that must
+                    # not take the writer down with it
+                    try:
+                        logger.debug("Failed message: %s", repr(message)[:200])
+                    except Exception:
+                        logger.debug("Failed message could not be shown")
                     logger.debug("Traceback:\n%s", traceback.format_exc())
                     continue
 
